@@ -29,6 +29,7 @@ import (
 	"net/url"
 	"os"
 	"path/filepath"
+	"runtime"
 	"sort"
 	"strings"
 	"sync"
@@ -79,6 +80,8 @@ type vlInput struct {
 	TickMs     int        `json:"tick_ms"`
 	Parallel   int        `json:"parallel"`
 	MaxSigs    int        `json:"max_sigs"`
+	// real-time drivers: the run is void (exit 2) when fewer than this share of the behaviours kept their schedule
+	MinOnSchedulePct int `json:"min_on_schedule_pct"`
 }
 
 type vlMismatch struct{ sig, detail string }
@@ -258,7 +261,10 @@ func vlRunAll(t *testing.T, test string, in *vlInput, r *vlRT, one func(i int, b
 		out[k] = v
 	}
 	// the binding needs real time to behave: when most behaviours fell off their schedule the run says nothing
-	if r.stats["behaviours_on_schedule"]*2 < len(in.Behaviours) && len(sigs) == 0 {
+	if in.MinOnSchedulePct == 0 {
+		in.MinOnSchedulePct = 50
+	}
+	if r.stats["behaviours_on_schedule"]*100 < in.MinOnSchedulePct*len(in.Behaviours) && len(sigs) == 0 {
 		t.Fatalf("INFRA: only %d of %d behaviours stayed on their real-time schedule (machine too loaded for tick %s)", r.stats["behaviours_on_schedule"], len(in.Behaviours), r.tick)
 	}
 	vtrace.Done(test, out)
@@ -267,9 +273,14 @@ func vlRunAll(t *testing.T, test string, in *vlInput, r *vlRT, one func(i int, b
 	}
 }
 
-func vlLoad(t *testing.T) *vlInput {
+// input file of a driver: $VERIF_IN_<KIND> (several drivers in one `go test` run) or $VERIF_IN
+func vlLoad(t *testing.T, kind string) *vlInput {
 	var in vlInput
-	if err := vtrace.LoadJSON(os.Getenv("VERIF_IN"), &in); err != nil {
+	path := os.Getenv("VERIF_IN_" + kind)
+	if path == "" {
+		path = os.Getenv("VERIF_IN")
+	}
+	if err := vtrace.LoadJSON(path, &in); err != nil {
 		t.Fatalf("input: %v", err)
 	}
 	if len(in.Behaviours) == 0 || in.Behaviours[0][0].A != "init" {
@@ -282,23 +293,40 @@ func vlLoad(t *testing.T) *vlInput {
 }
 
 func TestVerifLeaseTable(t *testing.T) {
-	in := vlLoad(t)
+	in := vlLoad(t, "TABLE")
 	tick := time.Duration(in.TickMs) * time.Millisecond
 	d := time.Duration(in.Behaviours[0][0].D)*tick + tick/2
 	r := &vlRT{tick: tick, d: d, stats: map[string]int{}}
 	vlRunAll(t, "TestVerifLeaseTable", in, r, func(i int, beh []vlStep) *vlMismatch {
 		leases := NewLeases(d)
+		// an answer is a value: what a caller was told must not change under it when the table changes later
+		// (serveLease marshals the answer after Acquire has released the table's lock)
+		type given struct {
+			p     *Lease
+			owner uint64
+			exp   time.Time
+		}
+		var answers []given
+		changed := ""
 		acquire := func(name string, n int) vlAnswer {
 			var a vlAnswer
 			a.t0 = time.Now()
 			l, err := leases.Acquire(name, uint64(n))
-			if l != nil { // the returned pointer is the table entry itself: copy before anything else happens
+			if l != nil {
 				a.hasL, a.owner, a.exp = true, l.Owner, l.Expiration
 			}
 			a.t1 = time.Now()
 			a.ok = err == nil
 			if err != nil {
 				a.errStr = err.Error()
+			}
+			for _, g := range answers {
+				if changed == "" && (g.p.Owner != g.owner || !g.p.Expiration.Equal(g.exp)) {
+					changed = fmt.Sprintf("an earlier answer (owner %d until %s) reads owner %d until %s after node %d asked for %q", g.owner, vlT(g.exp), g.p.Owner, vlT(g.p.Expiration), n, name)
+				}
+			}
+			if l != nil {
+				answers = append(answers, given{l, l.Owner, l.Expiration})
 			}
 			return a
 		}
@@ -311,7 +339,11 @@ func TestVerifLeaseTable(t *testing.T) {
 			}
 			return l.Owner, l.Expiration, true
 		}
-		return r.replay(beh, "", acquire, func(n int) uint64 { return uint64(n) }, peek)
+		mm := r.replay(beh, "", acquire, func(n int) uint64 { return uint64(n) }, peek)
+		if mm == nil && changed != "" {
+			mm = &vlMismatch{"x01:answer-changed", changed}
+		}
+		return mm
 	})
 }
 
@@ -355,9 +387,39 @@ func vlStart(t *testing.T, n *vlSvc) {
 	go func(done chan error) { done <- svc.Open() }(n.done)
 }
 
+// vlGuard runs a call into the real code that must come back; if it does not, the driver is void (exit 2) and
+// says where the code is stuck.
+func vlGuard(what string, d time.Duration, fn func()) {
+	done := make(chan struct{})
+	go func() { fn(); close(done) }()
+	select {
+	case <-done:
+	case <-time.After(d):
+		buf := make([]byte, 1<<22)
+		buf = buf[:runtime.Stack(buf, true)]
+		var keep []string
+		for _, g := range strings.Split(string(buf), "\n\n") {
+			if strings.Contains(g, "services/meta") || strings.Contains(g, "hashicorp/raft") {
+				keep = append(keep, g)
+			}
+		}
+		dump := strings.Join(keep, "\n\n")
+		if dir := os.Getenv("VERIF_HANG_DIR"); dir != "" {
+			os.WriteFile(filepath.Join(dir, fmt.Sprintf("x01-hang-%d.txt", os.Getpid())), buf, 0644)
+		}
+		if len(dump) > 6000 {
+			dump = dump[:6000]
+		}
+		fmt.Printf("INFRA: %s did not return within %s; goroutines in services/meta and raft:\n%s\n", what, d, dump)
+		vtrace.Out(map[string]interface{}{"k": "infra", "what": what + " did not return"})
+		os.Exit(3)
+	}
+}
+
 func vlStop(n *vlSvc) {
 	if n.svc != nil {
-		n.svc.Close()
+		svc := n.svc
+		vlGuard("Service.Close of "+n.name, 2*vlWatchdog, func() { svc.Close() })
 		n.ln.Close()
 		n.svc = nil
 	}
@@ -373,9 +435,11 @@ func vlWaitFor(t *testing.T, what string, d time.Duration, cond func() bool) {
 	}
 }
 
+var vlHTTP = &http.Client{Timeout: 10 * time.Second}
+
 func vlWaitHTTP(t *testing.T, n *vlSvc) {
 	vlWaitFor(t, "http of "+n.name, vlWatchdog, func() bool {
-		resp, err := http.Get("http://" + n.cfg.HTTPBindAddress + "/status")
+		resp, err := vlHTTP.Get("http://" + n.cfg.HTTPBindAddress + "/status")
 		if err != nil {
 			return false
 		}
@@ -413,7 +477,7 @@ func vlAnswerOf(l *Lease, err error, t0, t1 time.Time) vlAnswer {
 }
 
 func TestVerifLeaseHTTP(t *testing.T) {
-	in := vlLoad(t)
+	in := vlLoad(t, "HTTP")
 	tick := time.Duration(in.TickMs) * time.Millisecond
 	d := time.Duration(in.Behaviours[0][0].D)*tick + tick/2
 	root, err := os.MkdirTemp(os.Getenv("VERIF_SCRATCH"), "leasehttp")
@@ -547,6 +611,76 @@ func TestVerifLeaseClosing(t *testing.T) {
 	vtrace.Done("TestVerifLeaseClosing", map[string]interface{}{"mismatches": 0, "answer": res})
 }
 
+// TestVerifLeaseAnswerStress (thorough tier, built with -race): several nodes ask one meta node for the same
+// lease at the same time, the lease is short, so renewals, refusals and take-overs interleave inside the
+// handler.  Every answer must be well formed; the race detector watches serveLease reading the answer while
+// another request changes the table entry (the orchestrator looks for its report).
+func TestVerifLeaseAnswerStress(t *testing.T) {
+	root, err := os.MkdirTemp(os.Getenv("VERIF_SCRATCH"), "leasestress")
+	if err != nil {
+		t.Fatal(err)
+	}
+	defer os.RemoveAll(root)
+	cfg := NewConfig()
+	cfg.Dir = filepath.Join(root, "m1")
+	cfg.BindAddress = vlFreeAddr()
+	cfg.HTTPBindAddress = vlFreeAddr()
+	cfg.SingleServer = true
+	cfg.LeaseDuration = toml.Duration(3 * time.Millisecond)
+	n := &vlSvc{name: "m1", cfg: cfg}
+	vlStart(t, n)
+	defer vlStop(n)
+	select {
+	case err := <-n.done:
+		if err != nil {
+			t.Fatalf("INFRA: open: %v", err)
+		}
+	case <-time.After(vlWatchdog):
+		t.Fatalf("INFRA: single-node meta service did not open")
+	}
+	rounds := vtrace.EnvInt("VERIF_ROUNDS", 300)
+	var wg sync.WaitGroup
+	var mu sync.Mutex
+	bad := ""
+	counts := map[string]int{}
+	for w := 1; w <= 4; w++ {
+		wg.Add(1)
+		go func(w int) {
+			defer wg.Done()
+			ccfg := NewConfig()
+			ccfg.Dir = filepath.Join(root, fmt.Sprintf("c%d", w))
+			cl := NewClient(ccfg)
+			cl.SetMetaServers([]string{cfg.HTTPBindAddress})
+			cl.mu.Lock()
+			cl.nodeID = uint64(1 + w%2)
+			cl.mu.Unlock()
+			for i := 0; i < rounds; i++ {
+				l, err := cl.acquireLease("stress")
+				mu.Lock()
+				switch {
+				case err == nil && l != nil && l.Owner == uint64(1+w%2) && l.Name == "stress":
+					counts["granted"]++
+				case err != nil && err.Error() == "another node owns the lease" && l != nil && l.Owner != uint64(1+w%2) && l.Owner != 0:
+					counts["refused"]++
+				default:
+					if bad == "" {
+						bad = fmt.Sprintf("node %d got lease %+v err %v", 1+w%2, l, err)
+					}
+				}
+				mu.Unlock()
+			}
+		}(w)
+	}
+	wg.Wait()
+	if bad != "" {
+		vtrace.Mismatch("x01:answer-malformed", bad, map[string]interface{}{"test": "TestVerifLeaseAnswerStress"})
+	}
+	vtrace.Done("TestVerifLeaseAnswerStress", map[string]interface{}{"granted": counts["granted"], "refused": counts["refused"]})
+	if bad != "" {
+		t.Fail()
+	}
+}
+
 // ---------------------------------------------------------------------------------------------
 // three-node cluster
 
@@ -598,8 +732,10 @@ func (c *vlCluster) transfer(to *vlSvc) {
 		}
 		if cur != nil && cur != to {
 			rs := cur.svc.store.raftState
-			f := rs.raft.LeadershipTransferToServer(raft.ServerID(to.svc.RaftAddr()), raft.ServerAddress(to.svc.RaftAddr()))
-			f.Error() // a failed transfer is retried below
+			vlGuard("raft leadership transfer", vlWatchdog, func() {
+				f := rs.raft.LeadershipTransferToServer(raft.ServerID(to.svc.RaftAddr()), raft.ServerAddress(to.svc.RaftAddr()))
+				f.Error() // a failed transfer is retried below
+			})
 		}
 		deadline := time.Now().Add(5 * time.Second)
 		for time.Now().Before(deadline) && !c.converged(to) {
@@ -612,7 +748,7 @@ func (c *vlCluster) transfer(to *vlSvc) {
 func (c *vlCluster) join() {
 	for _, n := range c.nodes {
 		for try := 1; ; try++ {
-			resp, err := http.PostForm("http://"+c.nodes[0].cfg.HTTPBindAddress+"/join", url.Values{"addr": {n.cfg.HTTPBindAddress}})
+			resp, err := (&http.Client{Timeout: vlWatchdog}).PostForm("http://"+c.nodes[0].cfg.HTTPBindAddress+"/join", url.Values{"addr": {n.cfg.HTTPBindAddress}})
 			if err != nil {
 				c.t.Fatalf("INFRA: join %s: %v", n.name, err)
 			}
@@ -829,7 +965,10 @@ func (cc *vlClusterCase) run() (*vlMismatch, bool) {
 			}
 			lastName, lastN = cc.prefix+st.Name, st.N
 			t0 := time.Now()
-			lz, err := cc.client(st.N, via, skipped).acquireLease(lastName)
+			var lz *Lease
+			var err error
+			cl := cc.client(st.N, via, skipped)
+			vlGuard(fmt.Sprintf("acquireLease via %s (step %d)", via.name, si), vlWatchdog, func() { lz, err = cl.acquireLease(lastName) })
 			last = vlAnswerOf(lz, err, t0, time.Now())
 			if err == ErrServiceUnavailable {
 				last.errStr = "503"
@@ -951,7 +1090,7 @@ func (cc *vlClusterCase) run() (*vlMismatch, bool) {
 }
 
 func TestVerifLeaseCluster(t *testing.T) {
-	in := vlLoad(t)
+	in := vlLoad(t, "CLUSTER")
 	if in.MaxSigs == 0 {
 		in.MaxSigs = 3
 	}
